@@ -2,6 +2,7 @@ package main
 
 import (
 	"flag"
+	"runtime"
 
 	"golang.org/x/tools/go/ssa"
 	"fmt"
@@ -61,6 +62,9 @@ func main() {
 // (census, schematic sweeps, frame checker, relational). Filled in by other files.
 var extraEngines = map[string][]func(w *World, r *Report) []*Obligation{}
 
+// loadFactor: 1 normally, 2 or 3 when the machine is heavily loaded (time limits are stretched by it)
+var loadFactor = 1
+
 func cmdCheck(mode string, args []string) int {
 	fs := flag.NewFlagSet(mode, flag.ExitOnError)
 	prop := fs.String("prop", "", "property id")
@@ -80,6 +84,21 @@ func cmdCheck(mode string, args []string) int {
 		*timeout = 10
 		if *tier == "thorough" {
 			*timeout = 60
+		}
+	}
+	// On a machine that is busy with other work (several checks side by side, test suites running)
+	// the solvers get a fraction of a core each and run into time limits that they meet with room
+	// to spare otherwise; the limits are wall-clock, so they are stretched with the load.
+	loadFactor = 1
+	if b, err := os.ReadFile("/proc/loadavg"); err == nil {
+		var l1 float64
+		fmt.Sscanf(string(b), "%f", &l1)
+		if n := float64(runtime.NumCPU()); n > 0 && l1 > 1.25*n {
+			loadFactor = 2
+			if l1 > 2.5*n {
+				loadFactor = 3
+			}
+			*timeout *= loadFactor
 		}
 	}
 	start := time.Now()
